@@ -222,6 +222,7 @@ func TestReplay_Q(t *testing.T) {
 			verifkit.ReportReplay(rf, out.Failure)
 		}
 	}
+	replayC05Big()
 	for _, rf := range verifkit.ReplayFiles("TestProp_C01_StoreCrash") {
 		var c C01Case
 		if err := json.Unmarshal(rf.Case, &c); err != nil {
